@@ -314,6 +314,33 @@ Theorem C20_chain_cycle_diverges : forall n,
 Proof. intros n. split; [exact (proj1 (cyc1_diverges n))|exact (proj1 (cyc2_diverges n))]. Qed.
 Print Assumptions C20_chain_cycle_diverges.
 
+(* on the one-step fragment (tabs_flat: no registered replacement type mentions an overridden key) the chain IS the rewriting
+   resolve_ty of the C20_override_* theorems, for every sufficient fuel ... *)
+From Verif Require Import SchemaChainAgree.
+Theorem C20_chain_agrees_flat : forall dial conf, tabs_flat dial conf = true ->
+  forall t, exists n, forall m, (n <= m)%nat -> rchain dial conf m t = Some (resolve_ty dial conf t).
+Proof. exact rchain_agrees_flat. Qed.
+Print Assumptions C20_chain_agrees_flat.
+
+(* ... hence covered third-party classes are eliminated by the chain as well *)
+Theorem C20_chain_covered : forall dial conf t, tabs_flat dial conf = true -> covered dial conf t = true ->
+  exists n u, rchain dial conf n t = Some u /\ ty_ok u = true.
+Proof.
+  intros dial conf t Hf Hc. destruct (rchain_agrees_flat dial conf Hf t) as [n Hn].
+  exists n, (resolve_ty dial conf t). split; [apply Hn; apply le_n|apply covered_ok; exact Hc].
+Qed.
+Print Assumptions C20_chain_covered.
+
+Example C20_chain_flat_nonvacuous :
+  tabs_flat [("list", ORet (Some TStr)); ("Pt", ORet (Some (TList TBool)))] [("int", ORet (Some TFloat)); ("Pt", OPass)] = false /\
+  tabs_flat [("dict", ORet (Some TStr)); ("Pt", ORet (Some (TSet TBool)))] [("int", ORet (Some TFloat)); ("Pt", OPass)] = true /\
+  tabs_flat [("Pt", ORet (Some TInt)); ("int", ODeser)] [("int", ORet (Some TStr)); ("Pt", OPass)] = false /\
+  tabs_flat [] [("int", ORet (Some (TList TInt)))] = false /\
+  covered [("dict", ORet (Some TStr)); ("Pt", ORet (Some (TSet TBool)))] [("int", ORet (Some TFloat)); ("Pt", OPass)] (TList (TUnion [TOpaque "Pt"; TNone])) = true /\
+  rchain [("dict", ORet (Some TStr)); ("Pt", ORet (Some (TSet TBool)))] [("int", ORet (Some TFloat)); ("Pt", OPass)] 6%nat (TList (TUnion [TOpaque "Pt"; TNone]))
+    = Some (TList (TUnion [TSet TBool; TNone])).
+Proof. repeat split; vm_compute; reflexivity. Qed.
+
 (* non-vacuity: Pt -> int -> List[str] -> bool over three table entries, a field-level replacement resolved by the tables below it,
    float -> float stays; EP above (Pt -> int by the dialect, int -> str by Config) is outside the one-step fragment: the chain gives str *)
 Example C20_chain_nonvacuous :
